@@ -16,6 +16,8 @@ SCHED_HOOK = '''//go:build verif
 
 package log
 
+import "runtime"
+
 // VerifYield is called before every atomic operation of the instrumented functions.
 var VerifYield func()
 
@@ -24,6 +26,30 @@ func verifBefore[T any](x T) T {
 		f()
 	}
 	return x
+}
+
+// verifLock replaces mu.Lock(): a yield, then a yield-spin on TryLock.  A goroutine that waits
+// for the lock never blocks the baton-passing scheduler, it just burns steps.
+func verifLock(try func() bool) {
+	f := VerifYield
+	if f == nil {
+		for !try() {
+			runtime.Gosched()
+		}
+		return
+	}
+	f()
+	for !try() {
+		f()
+	}
+}
+
+// verifUnlock replaces mu.Unlock(): a yield, then the unlock.
+func verifUnlock(unlock func()) {
+	if f := VerifYield; f != nil {
+		f()
+	}
+	unlock()
 }
 '''
 
@@ -137,6 +163,8 @@ def report_capped(ctx, rep, feats, failing, cap):
     room for theirs); cases matching an open known finding are always passed on"""
     known = any(f.get("property") == ctx.pid and f.get("status") == "open" and f.get("match") and
                 all(feats.get(k) == v for k, v in f["match"].items()) for f in ctx.findings)
+    if failing and not known:
+        ctx.c18_failing = True                 # a concrete failing input has been reported in this run
     if ctx.nreplay >= cap and not known:
         ctx.violations.append("(not written)")
         return "violation"
